@@ -216,4 +216,10 @@ func runC05(cw *caseWriter, tier string, seed uint64) {
 	c08gen(cw, tier, &rng{s: seed*17 + 1})
 	runC102(cw, tier, seed, 2)
 	runC104(cw, tier, seed, 2) // snapshot transfer inside the composed cluster system (Model/ClusterSnap.v)
+	// pipeline replication (pipelineReplicate / pipelineDecode) with follower store faults: history monitors
+	if tier == "quick" {
+		runScenarios(cw, 14, seed*100000, 40, 8)
+	} else {
+		runScenarios(cw, 14, seed*100000, 600, 8)
+	}
 }
